@@ -4,7 +4,7 @@
    hand models that are run against the real code on every run. *)
 From Coq Require Import ZArith List Bool.
 From MomoCommon Require Import GenPrelude.
-From C09 Require Gen_UIntMath Gen_MemPoolConst Gen_MemPool Gen_MemPoolData PoolLayout PoolLinks PoolArith PoolLinksProofs PoolModel PoolConc PoolConcProofs PoolInv PoolAddr PoolCompl PoolOne PoolU32Prims Gen_MemPoolUInt32 PoolU32 PoolU32List.
+From C09 Require Gen_UIntMath Gen_MemPoolConst Gen_MemPool Gen_MemPoolData PoolLayout PoolLinks PoolArith PoolLinksProofs PoolModel PoolConc PoolConcProofs PoolInv PoolAddr PoolCompl PoolOne PoolU32Prims Gen_MemPoolUInt32 PoolU32 PoolU32List PoolBlkPrims Gen_MemPoolBlk Gen_MemPoolMerge PoolBlk PoolMergeGen.
 Import ListNotations.
 Local Open Scope Z_scope.
 
@@ -589,6 +589,78 @@ Theorem C09_default_alignment_params_ok : forall C bs, 1 <= C <= 127 -> 0 <= bs 
     /\ PoolLayout.check_params C (Gen_MemPoolConst.CorrectBlockSize bs a C) a = true.
 Proof. exact PoolArith.default_alignment_params_ok. Qed.
 Print Assumptions C09_default_alignment_params_ok.
+
+(* pvCheckParams GENERATED (MOMO_CHECKs under the default check mode + the length_error test): Ok exactly when the hand mirror
+   check_params holds; failed MOMO_CHECK = Stuck, too large block size = Exn; and every size the GENERATED check accepts has
+   non-wrapping buffer sizes (reverting e4ec548 breaks check_params_generated) *)
+Theorem C09_check_params_generated : forall C B A,
+  Gen_MemPool.pvCheckParams C B A = if PoolLayout.check_params C B A then Ok tt
+    else if Gen_MemPoolConst.CheckBlockCount C && Gen_MemPoolConst.CheckBlockAlignment A && (0 <? B)
+            && ((C =? 1) || (B mod A =? 0)) && ((C =? 1) || (2 <=? B / A)) then Exn else Stuck.
+Proof. exact PoolArith.check_params_generated. Qed.
+Print Assumptions C09_check_params_generated.
+
+Theorem C09_check_params_generated_no_wrap : forall C B A, Gen_MemPool.pvCheckParams C B A = Ok tt ->
+  Gen_MemPool.pvGetBufferSize C B A =
+    C * B + PoolArith.addend A + (2 + (B / A) mod 2) * A + (if 3 <=? A then 0 else 2) + 18 /\
+  Gen_MemPool.pvGetBufferSize C B A < 2 ^ 64 /\ C * B <= Gen_MemPool.pvGetBufferSize C B A /\
+  Gen_MemPool.pvGetBufferSize1 B A = B + PoolArith.addend A + 2 /\ Gen_MemPool.pvGetBufferSize1 B A < 2 ^ 64.
+Proof. exact PoolArith.check_params_generated_no_wrap. Qed.
+Print Assumptions C09_check_params_generated_no_wrap.
+
+(* pvNewBlock GENERATED, the manager request inside pvNewBuffer() as a step that may throw: a refused request leaves
+   mFreeBufferHead and every BufferBytes / next / prev cell of every buffer exactly as they were *)
+Theorem C09_newblock_refused_writes_nothing : forall fresh B A hd bf bcnt nx pv nfi,
+  Gen_MemPoolBlk.pvNewBlock fresh B A hd bf bcnt nx pv nfi true =
+    if PoolBlk.requests hd bcnt nx then Ok (None, hd, bf, bcnt, nx, pv)
+    else Gen_MemPoolBlk.pvNewBlock fresh B A hd bf bcnt nx pv nfi false.
+Proof. exact PoolBlk.newblock_refused_writes_nothing. Qed.
+Print Assumptions C09_newblock_refused_writes_nothing.
+
+Theorem C09_newblock_failure_atomic : forall fresh B A hd bf bcnt nx pv nfi r hd' bf' bcnt' nx' pv' fails,
+  Gen_MemPoolBlk.pvNewBlock fresh B A hd bf bcnt nx pv nfi fails = Ok (r, hd', bf', bcnt', nx', pv') ->
+  (r = None <-> fails = true /\ PoolBlk.requests hd bcnt nx = true) /\
+  (r = None -> hd' = hd /\ bf' = bf /\ bcnt' = bcnt /\ nx' = nx /\ pv' = pv).
+Proof. exact PoolBlk.newblock_failure_atomic. Qed.
+Print Assumptions C09_newblock_failure_atomic.
+
+(* the successful call as a function of the state: the block handed out and EXACTLY the cells written *)
+Theorem C09_newblock_spec : forall fresh B A hd bf bcnt nx pv nfi,
+  let hd' := if hd =? 0 then fresh else hd in
+  let need := (bcnt hd' =? 1) && (nx hd' =? 0) in
+  let nb := if need then fresh else nx hd' in
+  let blk := Gen_MemPool.pvGetBlock B A hd' (bf hd') in
+  Gen_MemPoolBlk.pvNewBlock fresh B A hd bf bcnt nx pv nfi false =
+    Ok (Some blk, (if bcnt hd' - 1 =? 0 then nb else hd'), upd bf hd' (nfi blk), upd bcnt hd' (bcnt hd' - 1),
+        (if need then upd nx hd' fresh else nx), (if need then upd pv fresh hd' else pv)).
+Proof. exact PoolBlk.newblock_spec. Qed.
+Print Assumptions C09_newblock_spec.
+
+Theorem C09_newblock_frame : forall fresh B A hd bf bcnt nx pv nfi blk hd2 bf' bcnt' nx' pv',
+  Gen_MemPoolBlk.pvNewBlock fresh B A hd bf bcnt nx pv nfi false = Ok (Some blk, hd2, bf', bcnt', nx', pv') ->
+  let hd' := if hd =? 0 then fresh else hd in
+  (forall b, b <> hd' -> bf' b = bf b /\ bcnt' b = bcnt b /\ nx' b = nx b) /\ (forall b, b <> fresh -> pv' b = pv b) /\
+  bcnt' hd' = bcnt hd' - 1 /\ blk = Gen_MemPool.pvGetBlock B A hd' (bf hd') /\ bf' hd' = nfi blk.
+Proof. exact PoolBlk.newblock_frame. Qed.
+Print Assumptions C09_newblock_frame.
+
+(* the list surgery of MergeFrom GENERATED (both loops) = the hand model PoolLinks.merge_from for every fuel and heap; hence the dll
+   theorem is a theorem about the generated code (reverting 7f37c9f breaks generated_mergefrom_is_model) *)
+Theorem C09_generated_mergefrom_is_model : forall fuel h1 h2 nx pv,
+  Gen_MemPoolMerge.MergeFrom fuel h1 h2 nx pv =
+    match PoolLinks.merge_from fuel (PoolLinks.mkHeap pv nx) h1 h2 with
+    | Some (h, a, b) => Ok (tt, a, b, PoolLinks.hnext h, PoolLinks.hprev h) | None => Fuel end.
+Proof. exact PoolMergeGen.generated_mergefrom_is_model. Qed.
+Print Assumptions C09_generated_mergefrom_is_model.
+
+Theorem C09_generated_mergefrom_dll_inv : forall nx pv L1 R1 L2 R2 head1 head2,
+  PoolLinksProofs.dll (PoolLinks.mkHeap pv nx) (L1 ++ head1 :: R1) -> PoolLinksProofs.dll (PoolLinks.mkHeap pv nx) (L2 ++ head2 :: R2) ->
+  (forall x, In x (L1 ++ head1 :: R1) -> In x (L2 ++ head2 :: R2) -> False) ->
+  exists nx' pv',
+    Gen_MemPoolMerge.MergeFrom (S (length (L1 ++ head1 :: R1) + length (L2 ++ head2 :: R2))) head1 head2 nx pv = Ok (tt, head1, 0, nx', pv') /\
+    PoolLinksProofs.dll (PoolLinks.mkHeap pv' nx') (L1 ++ rev L2 ++ head1 :: R1 ++ head2 :: R2).
+Proof. exact PoolMergeGen.generated_mergefrom_dll. Qed.
+Print Assumptions C09_generated_mergefrom_dll_inv.
 
 (* MemPool::Data::Swap (GENERATED): manager sub-object and allocCount of the two pools change places, whether or not the managers
    compare equal; hence "every buffer was obtained from its pool's manager" survives a Swap that also exchanges the buffer lists *)
